@@ -144,11 +144,61 @@ fn clone_case(case: &Value) -> Value {
            "orig_controls": ldap.controls.is_some(), "orig_timeout": ldap.timeout.is_some(), "orig_opts": ldap.search_opts.is_some(), "shared": shared})
 }
 
+fn connect(case: &Value) -> Value {
+    use ldap3::{LdapConnAsync, LdapConnSettings, StdStream};
+    let mut url_s = case["url"].as_str().unwrap().to_string();
+    let mut want_host = case["want_host"].as_str().map(|s| s.to_string());
+    let mut _listener = None;
+    if case["bind_unix"].as_bool() == Some(true) {
+        // role-based replay for ldapi: a socket that really exists, named through a fully percent-encoded host
+        let path = format!("/tmp/verif_sock_{}", std::process::id());
+        let _ = std::fs::remove_file(&path);
+        _listener = std::os::unix::net::UnixListener::bind(&path).ok();
+        let enc: String = path.bytes().map(|b| if b.is_ascii_alphanumeric() { (b as char).to_string() } else { format!("%{:02X}", b) }).collect();
+        url_s = match case["want_port"].as_u64() { Some(p) => format!("ldapi://{}:{}/", enc, p), None => format!("ldapi://{}/", enc) };
+        want_host = Some(enc);
+    }
+    let url = match url::Url::parse(&url_s) { Ok(u) => u, Err(e) => return json!({"r": "stub-mismatch", "why": format!("url parse: {}", e)}) };
+    let want_port = case["want_port"].as_u64().map(|p| p as u16);
+    if url.host_str().map(|s| s.to_string()) != want_host || url.port() != want_port {
+        return json!({"r": "stub-mismatch", "host": url.host_str(), "port": url.port()});
+    }
+    let mut settings = LdapConnSettings::new();
+    if let Some(ms) = case["timeout_ms"].as_u64() { settings = settings.set_conn_timeout(Duration::from_millis(ms)); }
+    settings = settings.set_starttls(case["starttls"].as_bool().unwrap_or(false));
+    let mut keep: Vec<Box<dyn std::any::Any>> = vec![];
+    match case["stream"].as_str() {
+        Some("Tcp") => {
+            let l = std::net::TcpListener::bind("127.0.0.1:0").unwrap();
+            let c = std::net::TcpStream::connect(l.local_addr().unwrap()).unwrap();
+            let (srv, _) = l.accept().unwrap();
+            keep.push(Box::new(srv));
+            settings = settings.set_std_stream(StdStream::Tcp(c));
+        }
+        Some("Unix") => {
+            let (a, b) = std::os::unix::net::UnixStream::pair().unwrap();
+            keep.push(Box::new(b));
+            settings = settings.set_std_stream(StdStream::Unix(a));
+        }
+        Some("Invalid") => { settings = settings.set_std_stream(StdStream::Invalid); }
+        _ => (),
+    }
+    let from_std = case["stream"].as_str().map(|s| s.to_lowercase());
+    let rt = rt();
+    let r = rt.block_on(async { tokio::time::timeout(Duration::from_millis(1500), LdapConnAsync::from_url_with_settings(settings, &url)).await });
+    match r {
+        Err(_) => json!({"r": "hang"}),
+        Ok(Ok(_)) => { let _ = std::fs::remove_file(format!("/tmp/verif_sock_{}", std::process::id())); json!({"r": "ok", "from_std": from_std}) }
+        Ok(Err(e)) => json!({"r": "err", "kind": format!("{:?}", e).split(|c: char| !c.is_alphanumeric()).next().unwrap_or("").to_string(), "from_std": from_std}),
+    }
+}
+
 pub fn run(case: &Value) -> Value {
     match case["cmd"].as_str().unwrap_or("") {
         "async:request" => request(case),
         "async:modifiers" => modifiers(case),
         "async:clone" => clone_case(case),
+        "async:connect" => connect(case),
         "async:script" => crate::script::run(case),
         "async:syncdiff" => crate::script::syncdiff(case),
         _ => json!({"r": "unknown-cmd", "cmd": case["cmd"]}),
